@@ -9,6 +9,8 @@ Continuation of Props/PyLegacy.lean: more methods of the legacy `DSD_Complex` AS
           `PtOk`  a truthy cached pair table is a table `make_pair_table` returns
           `LiOk`  a truthy cached loop index is `make_loop_index` of the cached pair table, with the cached exterior loops
           `EnOk`  truthy cached exterior domains come with cached (not `None`) enclosed domains
+  `py_kernel_string_eq`, `py_legacy_kernel_string_eq_current`
+        `kernel_string` = `LObj.kernelString` for EVERY object; on equal lengths it is the current API's kernel string
   `py_inv_new`, `py_inv_run`
         `Inv` holds for what `__init__` assigns and after EVERY sequence of the modelled state-changing methods (`Op2`)
   `py_exterior_needs_liOk`, `py_enclosed_needs_enOk`
@@ -17,6 +19,7 @@ Continuation of Props/PyLegacy.lean: more methods of the legacy `DSD_Complex` AS
 -/
 import DsdVerif.Props.PyLegacy
 import DsdVerif.Lemmas.PyLegacyInv
+import DsdVerif.Lemmas.PyLegacyKernel
 
 namespace Dsd.PyLegacy
 open Dsd Dsd.Gen Dsd.Lg
@@ -94,6 +97,21 @@ theorem py_enclosed_needs_enOk :
   · intro t ht; cases ht
   · intro t ht; cases ht
 
+/-! ### `kernel_string` -/
+
+/-- **`kernel_string` as written is the model's `kernelString`**, for every object (no hypothesis: the index loop runs over
+    `range(len(seq))`, a shorter structure is an IndexError on both sides); a `str` is the list of its characters -/
+theorem py_kernel_string_eq (o : LObj) : (py_DSD_Complex_kernel_string).exec (ofL o) = strAnsL o.kernelString o :=
+  exec_kernel_string o
+
+/-- transferred (LgL.kernelString_eq / C20V.legacy_kernel_string_eq): on equal lengths the legacy property as written returns the
+    kernel string of the CURRENT API (`Dsd.kernelString`) and leaves the object unchanged -/
+theorem py_legacy_kernel_string_eq_current (o : LObj) (h : o.seq.length = o.sst.length) :
+    (py_DSD_Complex_kernel_string).exec (ofL o) = (.ok (Dsd.kernelString o.seq o.sst).toList, ofL o) := by
+  rw [py_kernel_string_eq, LgL.kernelString_eq o h]; rfl
+
+#print axioms py_kernel_string_eq
+#print axioms py_legacy_kernel_string_eq_current
 #print axioms py_exterior_domains_eq
 #print axioms py_enclosed_domains_eq
 #print axioms py_inv_new
